@@ -220,7 +220,7 @@ def main(argv=None) -> int:
     build_log = ''
     checker_cmd = f'cd lean && lake build {module} && lake env lean <#print axioms of every theorem in {module}>'
     try:
-        targets = [module]
+        targets = [module] + (lean.driver_imports(mod.DRIVER) if getattr(mod, 'DRIVER', None) else [])
         ok, build_log = lean.build(targets, clean=(args.tier == 'thorough'))
         if not ok:
             proof_problems.append(f'lake build {module} failed')
